@@ -261,7 +261,7 @@ PROPS = {
         assumptions=['allocation behaviour of fxamacker/cbor, encoding/json, go-cose behind their well-formedness pre-check: assumed, measured'],
     ),
     'C15': dict(
-        cone=EMB_CONE, level='proof', kernel_maxlen=3000,
+        cone=EMB_CONE + ['theories/EmbeddedRoundtrip.v', 'theories/EmbeddedFlat.v'], level='proof', kernel_maxlen=3000,
         nontrivial=lambda i, o: True, classify=lambda i, o: ' '.join(i.split(' ')[:2]) if not i.startswith('FMAP') else 'FMAP',
         rule='entry counts 0..40, 250..260, 65530..65540, 70000 (thorough: step 97 in between) through the build-tagged hook (Add / ToCBOR / FromCBOR: header bytes, total length, round trip); seven struct shapes (flat with untagged and "-" fields, one and two levels of embedded struct, embedded interface holding a struct pointer or nil, duplicate key across levels, all-optional) x random values x random subsets of set fields through SerializeStructToCBOR (bytes compared with the model) and SerializeStructToJSON (stable output, populate round trip, same map as encoding/json and as the plain CBOR marshaller for the flat shape); PopulateStructFromCBOR on hand-assembled maps with missing / duplicate / unknown keys, wrong value types, indefinite length, tags, trailing bytes',
     ),
